@@ -655,6 +655,36 @@ func c10Lemmas(c *Ctx, p *Program) {
 			"call of Suite.isValid", isCall("(hpke.Suite).isValid"),
 			"call of KDF.ExtractSize / AEAD.KeySize / AEAD.NonceSize", isCall("(hpke.KDF).ExtractSize", "(hpke.AEAD).KeySize", "(hpke.AEAD).NonceSize"))
 	}
+	// tkn20: the sections of a parsed ciphertext header are indexed by the wires of the policy only
+	// after their shape has been validated against the policy and the key (the header reaches
+	// decapsulate through struct fields, which the taint analysis does not follow)
+	{
+		f := p.Func("abe/cpabe/tkn20/internal/tkn", "", "decapsulate")
+		isShape := func(in ssa.Instruction) bool {
+			ci, ok := in.(ssa.CallInstruction)
+			return ok && normName(p.staticCalleeName(ci.Common())) == "(abe/cpabe/tkn20/internal/tkn.ciphertextHeader).checkShape"
+		}
+		isHdrIndex := func(in ssa.Instruction) bool {
+			ia, ok := in.(*ssa.IndexAddr)
+			if !ok {
+				return false
+			}
+			ld, ok := ia.X.(*ssa.UnOp)
+			if !ok || ld.Op != token.MUL {
+				return false
+			}
+			fa, ok := ld.X.(*ssa.FieldAddr)
+			if !ok {
+				return false
+			}
+			switch fieldName(fa) {
+			case "c2", "c3", "c3neg":
+				return true
+			}
+			return false
+		}
+		c.orderRule(p, "C10.lemma", "the header's shape is validated before its sections are indexed", f, "call of ciphertextHeader.checkShape", isShape, "index into header.c2 / c3 / c3neg", isHdrIndex)
+	}
 	// sidh parameter tables
 	for _, pk := range []string{"p434", "p503", "p751"} {
 		e, info := p.varInit("dh/sidh/internal/"+pk, "params")
